@@ -1,6 +1,20 @@
 """Kernel shapes (C10): for every @exetera_njit / @njit function the loop guards and the array subscripts it contains,
 as normalised source strings. Written to Gen/KernelShape.lean by tools/translate.py; `--pin` prints the Lean literal that
-Model/KernelSites.lean freezes for the kernels that are modelled."""
+Model/KernelSites.lean freezes for the kernels that are modelled.
+
+Kernel paths (C10): for every subscript site of the same functions its PATH CONDITION — the ordered list of tests that
+were passed on the way to the subscript, as normalised source text (`ast.unparse`):
+  * `for t in it` / `while test` for every enclosing loop (the same strings as the guards of `kernelShape`);
+  * `test` for the body of an `if` / `elif`, `not (test)` for its `else` (an `elif` is an `if` inside the `else`);
+  * `not (test)` for every statement that follows an `if test: … break | continue | return | raise` in the same block
+    (an early exit), and `test` when it is the `else` branch that always exits;
+  * inside one expression: the operands of `a and b` to the left of the subscript (`not (a)` for `a or b`), and the test of
+    a conditional expression (`x if test else y`).
+Each condition is the text of a test that evaluated to true at the time it was passed (a syntactic path, not an invariant:
+variables may have been re-assigned since). Written to Gen/KernelPaths.lean as
+`kernelPaths : List (String × List (String × List String))` = kernel ↦ sorted, duplicate-free [(site, path condition)];
+a site that occurs on several paths has one entry per path. `--paths` prints the Lean literal that
+Model/KernelPaths<Family>.lean freezes."""
 import ast
 from pathlib import Path
 
@@ -29,14 +43,135 @@ def shape(fn):
     return sorted(set(guards)), sorted(set(subs))
 
 
-def kernels(repo):
-    out = []
+# ---------------------------------------------------------------------------------------------------------------------
+# path conditions
+# ---------------------------------------------------------------------------------------------------------------------
+EXITS = (ast.Break, ast.Continue, ast.Return, ast.Raise)
+
+
+def neg(test):
+    return "not (" + ast.unparse(test) + ")"
+
+
+def always_exits(block):
+    """the block cannot fall through to the statement after it"""
+    if not block:
+        return False
+    last = block[-1]
+    if isinstance(last, EXITS):
+        return True
+    if isinstance(last, ast.If):
+        return always_exits(last.body) and always_exits(last.orelse)
+    return False
+
+
+class Paths:
+    def __init__(self):
+        self.out = []           # (site, tuple of conditions), one per occurrence
+
+    # expressions -----------------------------------------------------------------------------------------------------
+    def expr(self, n, path):
+        if n is None:
+            return
+        if isinstance(n, ast.BoolOp):
+            seen = []
+            for v in n.values:
+                self.expr(v, path + seen)
+                seen = seen + [ast.unparse(v) if isinstance(n.op, ast.And) else neg(v)]
+            return
+        if isinstance(n, ast.IfExp):
+            self.expr(n.test, path)
+            self.expr(n.body, path + [ast.unparse(n.test)])
+            self.expr(n.orelse, path + [neg(n.test)])
+            return
+        if isinstance(n, ast.Subscript):
+            ctx = "W" if isinstance(n.ctx, ast.Store) else "R"
+            self.out.append((f"{ctx} {ast.unparse(n)}", tuple(path)))
+        for c in ast.iter_child_nodes(n):
+            if isinstance(c, ast.expr):
+                self.expr(c, path)
+            elif isinstance(c, (ast.stmt, ast.excepthandler)):
+                self.stmt(c, path)      # not expected inside an expression
+            else:
+                self.expr(c, path)      # slices, comprehensions, keywords, arguments: same path
+
+    # statements ------------------------------------------------------------------------------------------------------
+    def block(self, stmts, path):
+        path = list(path)
+        for s in stmts:
+            self.stmt(s, path)
+            if isinstance(s, ast.If):
+                if always_exits(s.body):
+                    path = path + [neg(s.test)]
+                elif always_exits(s.orelse):
+                    path = path + [ast.unparse(s.test)]
+
+    def stmt(self, s, path):
+        if isinstance(s, ast.If):
+            self.expr(s.test, path)
+            self.block(s.body, path + [ast.unparse(s.test)])
+            self.block(s.orelse, path + [neg(s.test)])
+        elif isinstance(s, ast.While):
+            self.expr(s.test, path)
+            self.block(s.body, path + ["while " + ast.unparse(s.test)])
+            self.block(s.orelse, path)
+        elif isinstance(s, ast.For):
+            self.expr(s.iter, path)
+            inner = path + ["for " + ast.unparse(s.target) + " in " + ast.unparse(s.iter)]
+            self.expr(s.target, inner)
+            self.block(s.body, inner)
+            self.block(s.orelse, path)
+        elif isinstance(s, (ast.FunctionDef, ast.AsyncFunctionDef)):
+            for d in s.decorator_list:
+                self.expr(d, path)
+            self.expr(s.args, path)
+            self.expr(s.returns, path)
+            self.block(s.body, path)
+        elif isinstance(s, (ast.With, ast.AsyncWith)):
+            for it in s.items:
+                self.expr(it, path)
+            self.block(s.body, path)
+        elif isinstance(s, ast.Try):
+            self.block(s.body, path)
+            for h in s.handlers:
+                self.expr(h.type, path)
+                self.block(h.body, path)
+            self.block(s.orelse, path)
+            self.block(s.finalbody, path)
+        else:
+            for c in ast.iter_child_nodes(s):
+                if isinstance(c, ast.stmt):
+                    self.stmt(c, path)
+                else:
+                    self.expr(c, path)
+
+
+def paths(fn):
+    p = Paths()
+    p.stmt(fn, [])
+    return sorted(set(p.out))
+
+
+def kernel_fns(repo):
     for f in FILES:
         tree = ast.parse((Path(repo) / f).read_text())
         for n in tree.body:
             if isinstance(n, ast.FunctionDef) and is_njit(n):
-                g, s = shape(n)
-                out.append((n.name, g, s))
+                yield n
+
+
+def kernels(repo):
+    return [(n.name,) + shape(n) for n in kernel_fns(repo)]
+
+
+def kernel_paths(repo):
+    out = []
+    for n in kernel_fns(repo):
+        ps = paths(n)
+        _, subs = shape(n)
+        if sorted(set(s for s, _ in ps)) != subs:
+            raise RuntimeError(f"{n.name}: the path walk and the subscript walk see different sites")
+        out.append((n.name, ps))
     return out
 
 
@@ -55,6 +190,15 @@ def render(rows, name, doc):
     return "\n".join(L)
 
 
+def render_paths(rows, name, doc):
+    L = [f"/-- {doc} -/", f"def {name} : List (String × List (String × List String)) := ["]
+    L.append(",\n".join(
+        f"  ({lean_str(n)}, [" + ("\n" if ps else "") +
+        ",\n".join(f"    ({lean_str(s)}, {lean_list(p)})" for s, p in ps) + "])" for n, ps in rows))
+    L.append("]")
+    return "\n".join(L)
+
+
 def write_gen(repo, out):
     rows = kernels(repo)
     if len(rows) < 30:
@@ -64,11 +208,29 @@ def write_gen(repo, out):
           render(rows, "kernelShape", "(compiled kernel, its loop guards, its array subscripts: R read / W write), as written in the source") + \
           "\n\nend Exetera.Gen\n"
     (Path(out) / "KernelShape.lean").write_text(txt)
+    prow = kernel_paths(repo)
+    txt = "-- generated by tools/translate.py (tools/translate_kernels.py) from operations.py and csv_reader_speedup.py; do not edit\n" \
+          "namespace Exetera.Gen\n\n" + \
+          render_paths(prow, "kernelPaths",
+                       "(compiled kernel, for every occurrence of an array subscript (R read / W write) its path condition: the "
+                       "enclosing loop guards and the `if` / `elif` tests (`not (…)` for `else` branches and for statements after an "
+                       "early exit `if …: break | continue | return | raise`; operands to the left inside `and` / `or`) under which it "
+                       "executes, outermost first), as written in the source") + \
+          "\n\nend Exetera.Gen\n"
+    (Path(out) / "KernelPaths.lean").write_text(txt)
     return len(rows)
 
 
 if __name__ == "__main__":
     import sys
-    rows = kernels(sys.argv[1] if len(sys.argv) > 1 else "/repo")
-    want = set(sys.argv[2:])
-    print(render([r for r in rows if not want or r[0] in want], "pinned", "pinned shapes"))
+    args = sys.argv[1:]
+    want_paths = "--paths" in args
+    args = [a for a in args if a != "--paths"]
+    repo = args[0] if args else "/repo"
+    want = args[1:]
+    if want_paths:
+        rows = dict(kernel_paths(repo))
+        print(render_paths([(k, rows[k]) for k in (want or rows)], "pinned", "pinned paths"))
+    else:
+        rows = kernels(repo)
+        print(render([r for r in rows if not want or r[0] in want], "pinned", "pinned shapes"))
